@@ -635,13 +635,33 @@ async fn send_request(substream: &mut Substream, cids: Vec<(Cid, WantType)>) -> 
 }
 
 async fn send_response(substream: &mut Substream, entries: Vec<ResponseType>) -> Result<(), Error> {
-    // Send presences in a separate message to not deal with it when batching blocks below.
-    if let Some((message, cid_count)) =
-        presences_message(entries.iter().filter_map(|entry| match entry {
+    // Send presences in separate messages to not deal with it when batching blocks below.
+    let mut presences = entries
+        .iter()
+        .filter_map(|entry| match entry {
             ResponseType::Presence { cid, presence } => Some((*cid, *presence)),
             ResponseType::Block { .. } => None,
-        }))
-    {
+        })
+        .collect::<VecDeque<_>>();
+
+    while !presences.is_empty() {
+        // Cut the batch by an upper bound of its encoded size.
+        let mut encoded_size = MAX_BLOCK_OVERHEAD;
+        let mut count = 0;
+        for (cid, _) in presences.iter() {
+            let next_encoded_size = cid.encoded_len() + MAX_PRESENCE_OVERHEAD;
+            if count > 0 && encoded_size + next_encoded_size > config::MAX_MESSAGE_SIZE {
+                break;
+            }
+            encoded_size += next_encoded_size;
+            count += 1;
+        }
+        let batch = presences.drain(..count).collect::<Vec<_>>();
+
+        let Some((message, cid_count)) = presences_message(batch) else {
+            break;
+        };
+
         if message.len() <= config::MAX_MESSAGE_SIZE {
             tracing::trace!(
                 target: LOG_TARGET,
@@ -756,6 +776,10 @@ fn blocks_message(blocks: impl IntoIterator<Item = (Cid, Vec<u8>)>) -> Option<(B
 /// Upper bound of the encoded size of a block in a Bitswap message besides its payload:
 /// the CID prefix (four varints) and the protobuf field tags and length prefixes.
 const MAX_BLOCK_OVERHEAD: usize = 64;
+
+/// Upper bound of the encoded size of a block presence in a Bitswap message besides its CID:
+/// the presence type and the protobuf field tags and length prefixes.
+const MAX_PRESENCE_OVERHEAD: usize = 16;
 
 /// Extract a batch of blocks of no more than `max_size` from `blocks`.
 /// Returns `None` if no more blocks are left.
